@@ -35,6 +35,31 @@ DESC = {
  'C18-a': ("non_ideal_non_isothermal_process: the two admissibility guards merged with `or` instead of `and`", "a coarse step that drives the temperature negative while the mass stays positive, as the last reported step"),
  'C19-a': ("DiffusionCurve.__attrs_post_init__: `is None` tests replaced by truthiness tests", "both a permeate temperature and permeate_pressure == 0"),
  'C20-a': ("UNIQUAC end-point clamp assigns composition.p in place instead of creating a new Composition", "UNIQUAC + a molar Composition with p exactly 0 or 1 shared between calls"),
+ 'C01-b': ("ideal_isothermal_process: time axis built with numpy.arange(0, N*dt, dt) instead of [dt*k for k in range(N)]",
+           "(number_of_steps, delta_hours) pairs for which numpy.arange(0, N*dt, dt) yields N+1 points or points differing from k*dt by rounding"),
+ 'C02-b': ("calculate_partial_fluxes iterates on the flux pair and stops on a flux difference below `precision`; returns the last iterate instead of F(y*)",
+           "a permeate side (temperature or pressure mode) with small fluxes, where |dJ| < precision long before the composition has settled"),
+ 'C03-b': ("non_ideal_non_isothermal_process: the programme is evaluated with .polynomial(...) instead of .program(...)", "a temperature programme of a non-polynomial type"),
+ 'C04-b': ("NRTL: the two activity-coefficient expressions factored into one nested helper that pairs tau with the wrong alpha when two alphas are given",
+           "a mixture with alpha12 != alpha21 (both stated)"),
+ 'C05-b': ("non_ideal_non_isothermal_process: the second component's permeance is scaled by the FIRST component's facilitation rate", "composition-dependent curve set whose two fitted functions differ + at least 2 steps"),
+ 'C06-b': ("ideal_non_isothermal_process: the second component's permeate cooling heat is taken from the initial feed temperature instead of the current one",
+           "non-isothermal ideal model + permeate temperature + a feed that has cooled (step >= 1)"),
+ 'C07-b': ("Measurements.from_diffusion_curve_second: feed composition no longer converted to mass fraction", "a diffusion curve given in mole fractions"),
+ 'C08-b': ("Membrane.get_permeance: returns the raw experiment permeance instead of the unit-converted one when no activation energy is stated", "an experiment stated in non-default units (GPU / SI) without activation energy"),
+ 'C09-b': ("DiffusionCurve.__attrs_post_init__: conversion of given permeances to kg/(m2 h kPa) removed", "a curve constructed from permeances in GPU or SI units"),
+ 'C10-b': ("non_ideal_isothermal_process: the flux call is wrapped in a retry loop that coarsens the precision up to 1e-2 and retries for ever on ValueError",
+           "a step where the flux solver raises for a reason other than precision (both permeate parameters given; feed running down to the permeate pressure)"),
+ 'C11-b': ("ideal_isothermal_process: composition update divides by feed_mass[k+1] + 1e-6", "any run; the error is of relative size 1e-6/mass, visible for small feed amounts"),
+ 'C12-b': ("Membrane.get_permeance: `activation_energy is None` replaced by truthiness (Ea == 0 treated as unstated)", "an experiment whose stated activation energy is exactly 0, queried at a temperature other than the experiment's"),
+ 'C13-b': ("Component.get_vapor_pressure: Antoine constant c > 0 is shifted by -273.15 (get_vaporisation_heat unchanged)", "a component whose Antoine c is positive"),
+ 'C14-b': ("Permeance converter clamps every value <= sys.float_info.epsilon to 0 (was: only negative values)", "a non-negative permeance value below 2.2e-16, e.g. SI-unit magnitudes"),
+ 'C15-b': ("Composition.to_molar takes M2/M1 from a module-level cache keyed by the mixture NAME", "two mixtures with the same name and different molar masses converted one after the other (history)"),
+ 'C16-b': ("find_best_fit: component_index no longer passed on to fit() (every fit uses the first component's default)", "fitting the second component (component_index=1)"),
+ 'C17-b': ("ProcessModel._generate_process_path: process directory created with exist_ok=True", "two saves that generate the same directory name (forced clock collision)"),
+ 'C18-b': ("ideal_non_isothermal_process: the positive-temperature guard is skipped when a temperature programme is given", "a temperature programme that goes non-positive within the run (e.g. coefficients [333.15, -400], dt = 1 h)"),
+ 'C19-b': ("get_partial_pressures: pure-component shortcut returns Psat*x without the activity model (and without validating the model name)", "composition with p exactly 0 or 1 together with an activity model whose parameters/constants are missing (should be rejected)"),
+ 'C20-b': ("fit(): private Measurements copy replaced by a shallow copy(data) (shares the measurement list)", "include_zero=True on data reused afterwards"),
 }
 
 
